@@ -19,7 +19,7 @@
 (*     group (mask, style) of renderings that differ only by a permutation.*)
 (* With FULL=1 the set of recorded ids must be exactly the case set.       *)
 (***************************************************************************)
-EXTENDS SyltTypeOrder, Json, IOUtils
+EXTENDS SyltDeadCode, Json, IOUtils
 
 VARIABLES k, pc, o
 vars == <<k, pc, o>>
@@ -36,7 +36,7 @@ RECURSIVE Fact(_)
 Fact(n) == IF n <= 1 THEN 1 ELSE n * Fact(n - 1)
 Min(a, b) == IF a < b THEN a ELSE b
 
-Fams == {"shape", "pos", "unspec", "self", "type"}
+Fams == {"shape", "pos", "unspec", "self", "type", "dead", "deadself"}
 RecsOf(f) == {x \in 1..Len(Rec) : Rec[x].fam = f}
 IdsOf(f) == {Rec[x].id : x \in RecsOf(f)}
 ASSUME \A x \in 1..Len(Rec) : Rec[x].fam \in Fams
@@ -45,18 +45,26 @@ ASSUME Full => IdsOf("pos") = (IF EnvInt("POS", 1) = 1 THEN PosCases ELSE {})
 ASSUME Full => IdsOf("unspec") = (IF EnvInt("POS", 1) = 1 THEN UnspecCases ELSE {})
 ASSUME Full => IdsOf("self") = (IF EnvInt("POS", 1) = 1 THEN SelfCases ELSE {})
 ASSUME Full => IdsOf("type") = (IF EnvInt("TYPES", 1) = 1 THEN TypeCases ELSE {})
-ASSUME Full => Cardinality(IdsOf("shape")) + Cardinality(IdsOf("pos")) + Cardinality(IdsOf("unspec")) + Cardinality(IdsOf("self")) + Cardinality(IdsOf("type")) = Len(Rec)
+WithDead == EnvInt("DEAD", 1) = 1
+ASSUME Full => IdsOf("dead") = (IF WithDead THEN DeadSelected(EnvInt("DEADMOD", 1), EnvInt("SEED", 1)) ELSE {})
+ASSUME Full => IdsOf("deadself") = (IF WithDead THEN DeadSelfSelected(EnvInt("DEADSELFMOD", 1), EnvInt("SEED", 1)) ELSE {})
+ASSUME Full => Cardinality(IdsOf("shape")) + Cardinality(IdsOf("pos")) + Cardinality(IdsOf("unspec")) + Cardinality(IdsOf("self")) + Cardinality(IdsOf("type"))
+               + Cardinality(IdsOf("dead")) + Cardinality(IdsOf("deadself")) = Len(Rec)
 
 \* the program of a record, re-derived from its id
 ProgOf(r) == CASE r.fam = "shape" -> ShapeProg(r.id)
                [] r.fam = "type" -> TypeProg(r.id)
                [] r.fam = "self" -> SelfProg(r.id)
+               [] r.fam = "dead" -> DeadProg(r.id)
+               [] r.fam = "deadself" -> DeadSelfProg(r.id)
                [] OTHER -> PosProg(r.id)
 InUniverse(r) == CASE r.fam = "shape" -> Len(r.id) \in 1..4 /\ WellFormed(r.id) /\ Sorted(r.id)
                    [] r.fam = "pos" -> r.id \in PosCases
                    [] r.fam = "unspec" -> r.id \in UnspecCases
                    [] r.fam = "self" -> r.id \in SelfCases
                    [] r.fam = "type" -> r.id \in TypeCases
+                   [] r.fam = "dead" -> r.id \in DeadCases
+                   [] r.fam = "deadself" -> r.id \in DeadSelfCases
 \* the order semantics is not run on planted ill-typed programs and on unspecified-behaviour cases
 NotRun(r) == (r.fam = "type" /\ IllTyped(r.id)) \/ r.fam = "unspec"
 ExpectedClass(r, oc) == IF r.fam = "unspec" THEN "unspecified"
